@@ -8,6 +8,7 @@ CONSTANTS
   MaxOps = 2
   MaxActs = 2
   MaxForks = 1
+  EmitEvery = 1
 INIT Init
 NEXT Next
 VIEW view
